@@ -150,6 +150,18 @@ def check_string(cx, http, DS, s):
         w = DS.WWWAuthenticate("custom", {"realm": s, "x": s})
         d = w.to_header()
         cx.eq("www-authenticate", s, d, DS.WWWAuthenticate.from_header(d), w, "C06/www-authenticate-custom")
+        # history: a challenge that was already rendered (str, repr, to_header) is edited through its parameter mapping
+        # and its attributes, and rendered again - what is serialised is what it holds now
+        str(w), repr(w)
+        w.parameters["x"] = s + "2"
+        w.parameters.pop("realm", None)
+        w.parameters.setdefault("n", "1")
+        d = w.to_header()
+        cx.eq("www-authenticate", s, d, DS.WWWAuthenticate.from_header(d), w, "C06/www-authenticate-edited-after-rendering")
+        w.parameters.update(k="v")
+        w["x"] = "y"
+        d = w.to_header()
+        cx.eq("www-authenticate", s, d, DS.WWWAuthenticate.from_header(d), w, "C06/www-authenticate-edited-after-rendering")
         if ":" not in s:
             a = DS.Authorization("basic", {"username": s, "password": s + ":p"})
             d = a.to_header()
@@ -404,6 +416,84 @@ def normal_form(cx, http, DS, text):
                     cx.eq("normal-form", text, d, cls.from_header(d), p, f"C06/normal-form:{nm}")
 
 
+def concurrent_roundtrips(rec, rng, http, DS, nthreads=4, rounds=250):
+    """Schedule: serialisers and parsers are used from several request threads at once.  Four threads round-trip
+    values drawn from a small shared pool (so that equal arguments meet) with yields injected at every line of
+    http_date / dump_options_header / quote_header_value / parse_options_header / dump_header; every thread must get
+    its own value back."""
+    import sys
+    import threading
+    import time
+
+    mon = getattr(sys, "monitoring", None)
+    TOOL = 5
+    codes = []
+    if mon is not None:
+        try:
+            mon.use_tool_id(TOOL, "verif-yield-c06")
+            for fn in ("http_date", "dump_options_header", "quote_header_value", "parse_options_header", "dump_header", "parse_date", "dump_cookie"):
+                f = getattr(http, fn, None)
+                c = getattr(getattr(f, "__wrapped__", f), "__code__", None)
+                if c is not None:
+                    codes.append(c)
+            inj = [0]
+
+            def on_line(code, line):
+                inj[0] += 1
+                if inj[0] % 3 == 0:
+                    time.sleep(0)
+
+            mon.register_callback(TOOL, mon.events.LINE, on_line)
+            for c in codes:
+                mon.set_local_events(TOOL, c, mon.events.LINE)
+        except ValueError:
+            mon = None
+    base = datetime(2020, 1, 1, tzinfo=timezone.utc)
+    instants = [base + timedelta(seconds=rng.randrange(10**8)) for _ in range(5)]
+    texts = ["a b", 'q"uo', "é", "x;y", "plain"]
+    bad = []
+    old_si = sys.getswitchinterval()
+    sys.setswitchinterval(1e-5)
+    try:
+        def worker(i):
+            r = __import__("random").Random(i)
+            for n in range(rounds):
+                dt = r.choice(instants)
+                d = http.http_date(dt)
+                if http.parse_date(d) != dt and len(bad) < 3:
+                    bad.append(("date", repr(dt), d))
+                ts = int(dt.timestamp())
+                d = http.http_date(ts)
+                if http.parse_date(d) != dt and len(bad) < 3:
+                    bad.append(("date-from-timestamp", ts, d))
+                v = r.choice(texts)
+                d = http.dump_options_header("text/x", {"k": v})
+                if http.parse_options_header(d) != ("text/x", {"k": v}) and len(bad) < 3:
+                    bad.append(("options", v, d))
+                d = http.dump_header([v, "x"])
+                if http.parse_list_header(d) != [v, "x"] and len(bad) < 3:
+                    bad.append(("list", v, d))
+
+        ths = [threading.Thread(target=worker, args=(i,)) for i in range(nthreads)]
+        for t_ in ths:
+            t_.start()
+        for t_ in ths:
+            t_.join(120)
+    finally:
+        sys.setswitchinterval(old_si)
+        if mon is not None:
+            for c in codes:
+                mon.set_local_events(TOOL, c, 0)
+            mon.free_tool_id(TOOL)
+    rec.case()
+    rec.nontrivial(("concurrent-roundtrips", nthreads, rounds))
+    rec.observe("concurrent_roundtrips", nthreads * rounds * 4)
+    if mon is not None:
+        rec.observe("concurrent_injected_yields", inj[0])
+    for kind, v, d in bad[:1]:
+        rec.violation(f"C06/concurrent:{kind}", f"with {nthreads} threads: value {v!r} dumped {d!r} does not parse back to it", {"pair": kind, "value": repr(v), "dumped": d}, monitor="schedule-stress")
+
+
 def run(shard, rec, rng):
     from werkzeug import datastructures as DS
     from werkzeug import http
@@ -424,6 +514,8 @@ def run(shard, rec, rng):
             check_string(cx, http, DS, s)
     if shard["index"] == 0:
         content_ranges(cx, http, DS, cfg["crlen"])
+    if shard["index"] % 4 == 1:
+        concurrent_roundtrips(rec, rng, http, DS)
     for i in range(cfg["rand"]):
         check_string(cx, http, DS, rand_str(rng))
         check_structured(cx, http, DS, rng, cfg)
